@@ -34,6 +34,7 @@ def run(ctx):
     check_index_of_siblings(ctx, prog)
     check_model(ctx, prog)
     check_trim(ctx, prog)
+    check_split_model(ctx, prog)
     check_valist(ctx, prog)
     import nullret
     nullret.check(ctx, prog, 'C03', ('String.cpp',))
@@ -921,3 +922,64 @@ def interp_trim(prog, f):
                 esc = lambda x: x.replace('\t', '\\t').replace('\n', '\\n').replace('\x0b', '\\v').replace('\r', '\\r')
                 return 'bad', '"%s".%s() gives "%s", the model (white space = space, tab, CR, LF) gives "%s"' % (shown, f['n'], esc(got), esc(text.strip(WS))), runs
     return 'ok', 'interpreted on %d texts: the result is the text without leading / trailing white space, every copy has a non-negative count' % runs, runs
+
+
+def check_split_model(ctx, prog):
+    """C03.split: split() agrees with the byte-string model.  `split(sep, out)` is interpreted (scansim; the output array as a
+    list that receives the appended pieces) on every text over {a, b, ','} up to 5 characters with the separators ",", ",,",
+    "ab" and "a": the pieces must be those of the model (text.split(sep): a trailing separator yields a final empty piece), so
+    that joining them with the separator gives the text back.  The white-space overload is interpreted on texts over
+    {space, tab, 'a', 'b'} against the model's split on runs of white space."""
+    import scansim, itertools
+    n = 0
+    for sig, alpha, seps in (('(const asl::String &,asl::Array<asl::String> &)const', 'ab,', (',', ',,', 'ab', 'a')), ('(asl::Array<asl::String> &)const', ' a\tb', (None,))):
+        fs = [g for g in prog.fn('asl::String::split', sig) if g.get('body')]
+        if not fs:
+            continue
+        f = fs[0]
+        ctx.analysed(f)
+        role = 'split%s:pieces of the byte-string model' % sig
+        bad = und = None
+        runs = 0
+        for L in range(0, 6):
+            for t in itertools.product(alpha, repeat=L):
+                text = ''.join(t)
+                for sep in seps:
+                    bufs = {'T': [ord(c) for c in text] + [0]}
+                    r = scansim.Run(prog, f, bufs, call_ptrs={'str': ('P', 'T', 0)}, methods={'*': 'interp'}, mems={'_len': len(text)}, objects=True)
+                    out = []
+                    if sep is not None:
+                        pid = f['params'][0]['id']
+                        bufs[('O', pid)] = [ord(c) for c in sep] + [0]
+                        r.objlen[pid] = len(sep)
+                        r.strobjs.add(pid)
+                        r.listsinks[f['params'][1]['id']] = out
+                        want = text.split(sep)
+                    else:
+                        r.listsinks[f['params'][0]['id']] = out
+                        want = text.split()
+                    runs += 1
+                    shown = '"%s".split(%s)' % (text.replace('\t', '\\t'), '"%s"' % sep if sep is not None else '')
+                    try:
+                        r.run()
+                    except scansim.OOB as o:
+                        bad = '%s: %s' % (shown, o)
+                        break
+                    except (scansim.Unsupported, TypeError, KeyError, IndexError, ValueError) as u:
+                        und = '%s: %s' % (shown, u)
+                        break
+                    got = [''.join(chr(c & 255) for c in x) for x in out]
+                    if got != want:
+                        bad = '%s gives %s, the model gives %s%s' % (shown, got, want, (': joined with the separator the pieces give "%s", not the text' % sep.join(got)) if sep is not None and sep.join(got) != text else '')
+                        break
+                if bad or und:
+                    break
+            if bad or und:
+                break
+        ctx.evaluations += runs
+        if und:
+            ctx.undecided('C03.split', f['pq'], role, fwhere(f), 'outside the interpreted fragment: %s' % und)
+        else:
+            n += 1
+            ctx.check(bad is None, 'C03.split', f['pq'], role, fwhere(f), 'interpreted on %d (text, separator) pairs' % runs, bad or '')
+    ctx.floor('C03.split overloads interpreted', n, 1)
